@@ -12,7 +12,7 @@ from drivers import realproc as rp
 # ---------------------------------------------------------------------------------------------
 # C10
 
-def run_reload(wk, nhup, new_workers, seed, bind="tcp", drop_env_last=False):
+def run_reload(wk, nhup, new_workers, seed, bind="tcp", drop_env_last=False, relcfg=False):
     """drop_env_last: the configuration of the last HUP no longer has the raw_env line: the workers of the last generation
     run without the variable"""
     cfg1 = 'workers = 2\nraw_env = ["VERIF_MARKER=gen0"]\n'
@@ -20,7 +20,7 @@ def run_reload(wk, nhup, new_workers, seed, bind="tcp", drop_env_last=False):
     port2 = rp.free_port() if bind == "tcp2" else None
     s = rp.Server(wk, workers=2, threads=3 if wk == "gthread" else None, config=cfg1, bind="tcp" if bind == "tcp2" else bind,
                   args=["--graceful-timeout", "4", "--keep-alive", "1", "--timeout", "30"] +
-                       (["-b", "127.0.0.1:%d" % port2] if port2 else []), name="c10")
+                       (["-b", "127.0.0.1:%d" % port2] if port2 else []), name="c10", relcfg=relcfg)
     # -w on the command line would override the file: drop it
     i = s.cmd.index("-w")
     del s.cmd[i:i + 2]
@@ -118,12 +118,15 @@ def run_reload(wk, nhup, new_workers, seed, bind="tcp", drop_env_last=False):
 
 def reload_side(ctx):
     plan = [("sync", 1, 3, "tcp"), ("gthread", 2, 1, "localhost"), ("gevent", 1, 3, "unix"), ("gevent", 1, 2, "tcp2"),
-            ("gthread", 1, 2, "unix"), ("sync", 2, 2, "unix"), ("sync", 2, 0, "tcp"), ("sync", 2, 2, "tcp", True), ("gthread", 3, 2, "unix", True)] if ctx.quick else \
+            ("gthread", 1, 2, "unix"), ("sync", 2, 2, "unix"), ("sync", 2, 0, "tcp"), ("sync", 2, 2, "tcp", True), ("gthread", 3, 2, "unix", True),
+            # the configuration file named relative to the start directory, --chdir elsewhere
+            ("sync", 2, 3, "tcp", False, True)] if ctx.quick else \
         [(wk, n, w, b) for wk in ("sync", "gthread", "gevent", "eventlet")
          for (n, w, b) in ((1, 3, "tcp"), (2, 1, "localhost"), (3, 2, "unix"), (1, 2, "tcp2"), (2, 0, "tcp"))] + \
-        [(wk, n, 2, "tcp", True) for wk in ("sync", "gthread", "gevent", "eventlet") for n in (1, 2, 3)]
+        [(wk, n, 2, "tcp", True) for wk in ("sync", "gthread", "gevent", "eventlet") for n in (1, 2, 3)] + \
+        [(wk, 2, 3, b, False, True) for wk in ("sync", "gthread", "gevent", "eventlet") for b in ("tcp", "unix")]
     results = _parallel(plan, lambda a, i: run_reload(a[0], a[1], a[2], ctx.seed * 10 + i, bind=a[3],
-                                                        drop_env_last=len(a) > 4 and a[4]), par=9)
+                                                        drop_env_last=len(a) > 4 and a[4], relcfg=len(a) > 5 and a[5]), par=10)
     traces = [r[0] for r in results]
     metas = [r[1] for r in results]
     # in-process: TERM (what a reload sends to the old workers) at every system-call boundary of the real sync loop
@@ -157,6 +160,10 @@ def run_timeout(wk, scenario, timeout=2):
     port2 = rp.free_port() if scenario == "healthy2" else None
     hup = scenario.startswith("hup_")
     full_scenario = scenario
+    # the listening socket is handed over by the starter (fd://N, as systemd socket activation does), in blocking mode
+    inherited = scenario == "healthy_inherited"
+    if inherited:
+        scenario = "healthy"
     if hup:
         # the timeout in force is the one of the LAST reload: the server starts with another one (in the configuration
         # file), the file is rewritten and the master gets HUP before the scenario proper starts
@@ -183,7 +190,7 @@ def run_timeout(wk, scenario, timeout=2):
         s = rp.Server(wk, workers=1, threads=1, args=["--timeout", str(timeout), "--graceful-timeout", "2", "--worker-connections", "2",
                                                        "--keep-alive", str(timeout * 4)], name="c11")
     else:
-        s = rp.Server(wk, workers=nworkers, threads=2 if wk == "gthread" else None,
+        s = rp.Server(wk, workers=nworkers, threads=2 if wk == "gthread" else None, bind="fd" if inherited else "tcp",
                       args=["--timeout", str(timeout), "--graceful-timeout", "2"] +
                            (["-b", "127.0.0.1:%d" % port2] if port2 else []), name="c11")
     try:
@@ -322,7 +329,7 @@ def run_timeout(wk, scenario, timeout=2):
                 n += 1
                 if st != 200:
                     fails += 1
-            time.sleep(timeout * 1.2)     # idle
+            time.sleep(timeout * (2.6 if inherited else 1.2))     # idle
             alive = [p for p in initial if rp.proc_state(p) not in (None, "Z")]
             ev.append({"e": "healthy", "killed": len(initial) - len(alive)})
             ev.append({"e": "others", "ok": n - fails, "failed": fails})
@@ -410,14 +417,14 @@ def run_timeout(wk, scenario, timeout=2):
 
 def timeout_side(ctx):
     plan = [("sync", "hang"), ("gthread", "stop"), ("sync", "healthy"), ("gevent", "healthy"), ("sync", "healthy2"),
-            ("sync", "healthy_busy"), ("sync", "stop_busymaster"), ("sync", "hup_hang"), ("sync", "hup_healthy"), ("gthread", "healthy_full"), ("gthread", "healthy_idle_keepalive"), ("gevent", "healthy_draining")] if ctx.quick else \
+            ("sync", "healthy_busy"), ("sync", "stop_busymaster"), ("sync", "hup_hang"), ("sync", "hup_healthy"), ("gthread", "healthy_full"), ("gthread", "healthy_idle_keepalive"), ("gevent", "healthy_draining"), ("eventlet", "healthy_draining"),
+            ("sync", "healthy_inherited")] if ctx.quick else \
         [(wk, sc) for wk in ("sync", "gthread", "gevent", "eventlet") for sc in ("hang", "stop", "ignore", "healthy")] + \
         [("sync", "healthy2"), ("gthread", "healthy2"), ("sync", "healthy_busy"), ("gthread", "healthy_busy"),
          ("sync", "stop_busymaster"), ("gevent", "stop_busymaster"), ("sync", "hang_busymaster"),
          ("sync", "hup_hang"), ("sync", "hup_healthy"), ("gthread", "hup_stop"), ("gevent", "hup_healthy"), ("gthread", "healthy_full"), ("gthread", "healthy_idle_keepalive"), ("gevent", "healthy_idle_keepalive"),
-         ("eventlet", "healthy_idle_keepalive"), ("gevent", "healthy_draining"), ("eventlet", "healthy_draining"),
-         ("gthread", "healthy_draining")]
-    results = _parallel(plan, lambda a, i: run_timeout(a[0], a[1]), par=12)
+         ("eventlet", "healthy_idle_keepalive"), ("gevent", "healthy_draining"), ("eventlet", "healthy_draining")] + [(wk, "healthy_inherited") for wk in ("sync", "gthread", "gevent", "eventlet")]
+    results = _parallel(plan, lambda a, i: run_timeout(a[0], a[1]), par=13)
     traces = [r[0] for r in results]
     metas = [r[1] for r in results]
     verdicts, stats = tlc.validate_batch("TimeoutTrace", "TimeoutTrace.cfg", traces, name="TimeoutTrace_C11")
